@@ -33,7 +33,7 @@ type Case struct {
 	SizeDelta int     `json:"size_delta,omitempty"` // descriptor size = len(content)+SizeDelta (a descriptor whose size disagrees with its digest)
 	Content   Content `json:"content"`              // the content the descriptor's digest names
 	Passes    []Pass  `json:"passes"`               // pass 0, then one pass per rewind
-	Mode      string  `json:"mode"`                 // loop | readall | copy | copybuf | rawbody | ociconfig | tar-rawbody | tar-readfile
+	Mode      string  `json:"mode"`                 // loop | readall | copy | copy-direct | copybuf | copybuffer | copy-file | writeto | rawbody | ociconfig | tar-rawbody | tar-readfile | tar-walk
 	ReadBufs  []int   `json:"read_bufs,omitempty"`  // loop mode: cyclic sequence of buffer sizes (0 = zero-length read)
 	PostReads int     `json:"post_reads,omitempty"` // extra Read calls after the terminal result of every pass
 	Tell      int     `json:"tell,omitempty"`       // loop mode: every Tell-th read is preceded by Seek(0, SeekCurrent) (0 = never)
@@ -420,13 +420,13 @@ func gen(ch chooser, set string) Case {
 	c.Entry = entries[ch.Int(0, len(entries)-1, "entry")]
 	c.Algo = []string{"sha256", "sha512"}[weighted(ch, "algo", 65, 35)]
 	c.SizeKnown = !chance(ch, "sizeunknown", 35, 100)
-	c.Mode = []string{"loop", "readall", "copy", "copybuf", "rawbody", "ociconfig", "tar-rawbody", "tar-readfile", "tar-walk"}[weighted(ch, "mode", 46, 10, 5, 4, 5, 4, 9, 10, 7)]
+	c.Mode = []string{"loop", "readall", "copy", "copybuf", "rawbody", "ociconfig", "tar-rawbody", "tar-readfile", "tar-walk", "copy-direct", "copybuffer", "copy-file", "writeto"}[weighted(ch, "mode", 40, 8, 5, 4, 5, 4, 8, 9, 6, 3, 3, 2, 3)]
 	c.Content = genContent(ch, c.Mode)
 	n := len(expand(c.Content))
 	if c.SizeKnown && chance(ch, "sizelie", 1, 16) {
 		c.SizeDelta = []int{1, -1, 2, -2, 100}[ch.Int(0, 4, "sizedelta")]
 	}
-	if c.Mode == "loop" {
+	if c.Mode == "loop" || c.Mode == "copybuffer" {
 		k := ch.Int(1, 5, "nbufs")
 		for i := 0; i < k; i++ {
 			var b int
@@ -524,7 +524,7 @@ func normalise(c *Case) {
 		c.Algo = "sha256"
 	}
 	switch c.Mode {
-	case "loop", "readall", "copy", "copybuf", "rawbody", "ociconfig", "tar-rawbody", "tar-readfile", "tar-walk":
+	case "loop", "readall", "copy", "copybuf", "rawbody", "ociconfig", "tar-rawbody", "tar-readfile", "tar-walk", "copy-direct", "copybuffer", "copy-file", "writeto":
 	default:
 		c.Mode = "loop"
 	}
